@@ -8,6 +8,12 @@ from common import CACHE, Infra, sh
 
 DIR = os.path.join(CACHE, "c13")
 
+# a generic actor whose type parameter appears in no method signature (the handle carries it in a PhantomData field), no method-level generics
+ITEM_G = "impl<Q: Send + Sync + 'static> A<Q> { pub fn new() -> Self { A(0, std::marker::PhantomData) } pub fn inc(&mut self) { self.0 += 1; } pub fn add(&mut self, n: i64) { self.0 += n; } }"
+DECL_G = "pub struct A<Q>(pub i64, pub std::marker::PhantomData<Q>);"
+# a generic actor whose parameter is used in a method signature (the sole-owner guard of consuming methods relies on the instance count)
+ITEM_T = "impl<T: Clone + Send + Sync + 'static> A<T> { pub fn new() -> Self { A(0, Vec::new()) } pub fn put(&mut self, t: T) { self.1.push(t); } }"
+DECL_T = "pub struct A<T>(pub i64, pub Vec<T>);"
 ITEM = "impl A { pub fn new() -> Self { A(0) } pub fn inc(&mut self) { self.0 += 1; } pub fn add(&mut self, n: i64) { self.0 += n; } pub fn stat(x: u8) -> u8 { x } }"
 
 PRELUDE = r'''
@@ -185,12 +191,14 @@ def build(mods):
     os.makedirs(DIR, exist_ok=True)
     parts = [PRELUDE]
     arms = []
-    for name, text, mock, hty, ctor in mods:
+    for mod in mods:
+        name, text, mock, hty, ctor = mod[:5]
+        decl = mod[5] if len(mod) > 5 else "pub struct A(pub i64);"
         if hty == "DEBUT-ONLY":
             # text = the generated `fn debut() -> SystemTime { .. }` alone
             parts.append("pub mod %s {\n pub struct S;\n impl S { %s }\n pub fn mk() -> crate::mock::SystemTime { S::debut() }\n driver_min!();\n}\n" % (name, retarget(text, True)))
         else:
-            parts.append("pub mod %s {\n pub struct A(pub i64);\n %s\n pub type H = %s;\n pub fn mk() -> H { %s }\n driver!();\n}\n" % (name, retarget(text, mock), hty, ctor))
+            parts.append("pub mod %s {\n %s\n %s\n pub type H = %s;\n pub fn mk() -> H { %s }\n driver!();\n}\n" % (name, decl, retarget(text, mock), hty, ctor))
         arms.append('"%s" => %s::run(&line),' % (name, name))
     parts.append(MAIN % " ".join(arms))
     src = "\n".join(parts)
@@ -251,3 +259,33 @@ def debut_fn_text(expansion):
                 break
         k += 1
     return "pub " + flat[i:k + 1]
+
+
+def clone_count_probe(hook):
+    """the instance counter of generic handles: expansions of ITEM_G / ITEM_T (debut) compiled next to the mock clock, history
+    `new, clone, clone, drop`; returns list of (label, attr, item, observed line, problem) - empty when every count equals the number of live handles"""
+    jobs = [("actor", ["debut", ITEM_G]), ("actor", ["debut, channel = 2", ITEM_T])]
+    res = hook.run_batch(jobs, tag="cntp")
+    mods, meta = [], []
+    for k, ((kind, (attr, item)), (cls, f)) in enumerate(zip(jobs, res)):
+        if cls != "TOKENS":
+            continue
+        mods.append(("c%d" % k, f[0], True, "ALive<u8>" if item is ITEM_G else "ALive<String>", "ALive::<u8>::new()" if item is ITEM_G else "ALive::<String>::new()",
+                     DECL_G if item is ITEM_G else DECL_T))
+        meta.append((attr, item))
+    if not mods:
+        return []
+    binp = build(mods)
+    out = []
+    for (name, *_), (attr, item) in zip(mods, meta):
+        lines = ["hist 5000 1000 N,C0,C0", "hist 5000 1000 N,C0,C0,D1", "hist 5000 1000 N,N,C1"]
+        want = [[3, 3, 3], [2, 2], [2, 1, 2]]     # live list is newest first: N,N,C1 = [clone of the first actor, second actor, first actor]
+        res, err = run(binp, name, lines)
+        if err:
+            out.append((name, attr, item, str(err), "harness: " + str(err)))
+            continue
+        for line_in, line, w in zip(lines, res, want):
+            counts = [int(h.split(":")[1]) for h in line.split(" | ")[0].split(",") if h]
+            if counts != w:
+                out.append((name, attr, item, line_in + " -> " + line, "instance counts %s after the history %s, expected %s (every live handle of one actor counts all its live clones)" % (counts, line_in.split()[-1], w)))
+    return out
